@@ -181,10 +181,25 @@ theorem else_local_404 (e : Env) (r : Req) (h : shouldProxy r.method r.path = fa
   have h' : shouldProxyV .fixed r.method r.path = false := h
   simp [serve, serveV, h']
 
+theorem upgradeType_congr {h h' : Hdrs} (hc : vals hConnection h = vals hConnection h')
+    (hu : vals hUpgrade h = vals hUpgrade h') : upgradeType h = upgradeType h' := by
+  unfold upgradeType asksUpgrade hget
+  rw [hc, hu]
+
+/-- what `ServeHTTP` does to the header set does not touch the protocol-switch request. -/
+theorem upgradeType_scrubbed (rid ip : Str) (hs : Hdrs) :
+    upgradeType (hset hXRequestID rid (hset hXConnectingIP ip
+      (hdel hXRealIP (hdel hTrueClientIP (hdel hForwarded (hdel hCFConnectingIP hs)))))) = upgradeType hs := by
+  apply upgradeType_congr
+  · rw [vals_hset_other (by decide), vals_hset_other (by decide), vals_hdel_other (by decide),
+      vals_hdel_other (by decide), vals_hdel_other (by decide), vals_hdel_other (by decide)]
+  · rw [vals_hset_other (by decide), vals_hset_other (by decide), vals_hdel_other (by decide),
+      vals_hdel_other (by decide), vals_hdel_other (by decide), vals_hdel_other (by decide)]
+
 /-- What `serve` returns when it contacts the backend. -/
 theorem serve_proxied_inv {e : Env} {r : Req} {path : Str} {hd : Hdrs} (h : serve e r = .proxied path hd) :
     shouldProxy r.method r.path = true ∧ path = joinPath e.base r.path ∧
-    ∃ ip, splitHost r.remote = some ip ∧
+    ∃ ip, splitHost r.remote = some ip ∧ isPrint (upgradeType r.hdrs) = true ∧
       hd = proxyHeaders .fixed e.ua (hset hXRequestID e.reqID (hset hXConnectingIP ip
         (hdel hXRealIP (hdel hTrueClientIP (hdel hForwarded (hdel hCFConnectingIP r.hdrs)))))) := by
   unfold serve serveV at h
@@ -194,8 +209,14 @@ theorem serve_proxied_inv {e : Env} {r : Req} {path : Str} {hd : Hdrs} (h : serv
     | none => rw [hip] at h; simp at h
     | some ip =>
       rw [hip] at h
-      simp only [Resp.proxied.injEq] at h
-      exact ⟨hs, h.1.symm, ip, rfl, h.2.symm⟩
+      simp only at h
+      rw [upgradeType_scrubbed] at h
+      by_cases hpr : isPrint (upgradeType r.hdrs) = true
+      · rw [if_pos hpr] at h
+        simp only [Resp.proxied.injEq] at h
+        exact ⟨hs, h.1.symm, ip, rfl, hpr, h.2.symm⟩
+      · rw [if_neg hpr] at h
+        simp at h
   · rw [if_neg hs] at h
     split at h <;> simp at h
 
@@ -210,30 +231,45 @@ theorem backend_only_for_api {e : Env} {r : Req} {path : Str} {hd : Hdrs} (h : s
   obtain ⟨rel, h1, h2, h3, h4⟩ := stays_under_prefix e.base hs
   exact ⟨rel, by rw [hp, h1], h2, h3, h4⟩
 
+/-- a header that is absent stays absent through `ReverseProxy` and `Rewrite`, unless it is one of
+the three that `Rewrite` sets (`Connection`/`Upgrade`, which the library may put back, are deleted
+at the end). -/
 theorem proxyHeaders_keeps_nil {n : Str} (ua : Str) {inH : Hdrs} (h1 : n ≠ hUserAgent) (h2 : n ≠ hXConnectingIP)
     (h3 : n ≠ hXRequestID) (hn : vals n inH = []) : vals n (proxyHeaders .fixed ua inH) = [] := by
-  unfold proxyHeaders removeHopByHop
+  unfold proxyHeaders removeHopByHop dropUpgradeHdrs
   simp only [Variant.fixed, if_true]
+  by_cases hu : n = hUpgrade
+  · rw [hu]; exact vals_hdel_same _ _
+  by_cases hc : n = hConnection
+  · rw [hc]; exact vals_hdel_nil _ (vals_hdel_same _ _)
+  apply vals_hdel_nil; apply vals_hdel_nil
   apply vals_hset_nil h3
   apply vals_hset_nil h2
   apply vals_hset_nil h1
   apply vals_hdel_nil; apply vals_hdel_nil; apply vals_hdel_nil; apply vals_hdel_nil
-  apply vals_hdelAll_nil
-  apply vals_hdelAll_nil
-  exact hn
+  unfold reAddUpgrade
+  split
+  · apply vals_hdelAll_nil
+    apply vals_hdelAll_nil
+    exact hn
+  · apply vals_hset_nil hu
+    apply vals_hset_nil hc
+    apply vals_hdelAll_nil
+    apply vals_hdelAll_nil
+    exact hn
 
 /-- **client_ip_header**: every forwarded request carries exactly one `X-Connecting-Ip`, and it is
 the host part of the connecting peer's address — whatever header set the client sent, including
 forged `X-Connecting-IP` values and `Connection` tokens naming it. -/
 theorem client_ip_header {e : Env} {r : Req} {path : Str} {hd : Hdrs} (h : serve e r = .proxied path hd) :
     ∃ ip, splitHost r.remote = some ip ∧ vals hXConnectingIP hd = [ip] := by
-  obtain ⟨_, _, ip, hip, hhd⟩ := serve_proxied_inv h
+  obtain ⟨_, _, ip, hip, _, hhd⟩ := serve_proxied_inv h
   refine ⟨ip, hip, ?_⟩
   rw [hhd]
-  unfold proxyHeaders
+  unfold proxyHeaders dropUpgradeHdrs
   simp only [Variant.fixed, if_true]
   have hne : hXConnectingIP ≠ hXRequestID := by decide
-  rw [vals_hset_other hne, vals_hset_same]
+  rw [vals_hdel_other (by decide), vals_hdel_other (by decide), vals_hset_other hne, vals_hset_same]
   simp only [hget, vals_hset_other hne, vals_hset_same, List.headD_cons]
 
 theorem served_keeps_nil {n : Str} (e : Env) (ip : Str) {h0 : Hdrs} (h1 : n ≠ hUserAgent)
@@ -245,14 +281,14 @@ theorem proxy_strips (ua : Str) (inH : Hdrs) :
     vals hForwarded (proxyHeaders .fixed ua inH) = [] ∧ vals hXForwardedFor (proxyHeaders .fixed ua inH) = [] ∧
     vals hXForwardedHost (proxyHeaders .fixed ua inH) = [] ∧
     vals hXForwardedProto (proxyHeaders .fixed ua inH) = [] := by
-  unfold proxyHeaders
+  unfold proxyHeaders dropUpgradeHdrs
   simp only [Variant.fixed, if_true]
-  generalize removeHopByHop inH = h
+  generalize reAddUpgrade (upgradeType inH) (removeHopByHop inH) = h
   have k : ∀ n, n ≠ hUserAgent → n ≠ hXConnectingIP → n ≠ hXRequestID → ∀ h0 : Hdrs, vals n h0 = [] →
-      vals n (hset hXRequestID (hget hXRequestID inH) (hset hXConnectingIP (hget hXConnectingIP inH)
-        (hset hUserAgent ua h0))) = [] := by
+      vals n (hdel hUpgrade (hdel hConnection (hset hXRequestID (hget hXRequestID inH)
+        (hset hXConnectingIP (hget hXConnectingIP inH) (hset hUserAgent ua h0))))) = [] := by
     intro n h1 h2 h3 h0 hn
-    exact vals_hset_nil h3 _ (vals_hset_nil h2 _ (vals_hset_nil h1 _ hn))
+    exact vals_hdel_nil _ (vals_hdel_nil _ (vals_hset_nil h3 _ (vals_hset_nil h2 _ (vals_hset_nil h1 _ hn))))
   refine ⟨?_, ?_, ?_, ?_⟩
   · exact k hForwarded (by decide) (by decide) (by decide) _
       (vals_hdel_nil hXForwardedProto (vals_hdel_nil hXForwardedHost (vals_hdel_nil hXForwardedFor
@@ -268,7 +304,7 @@ theorem proxy_strips (ua : Str) (inH : Hdrs) :
 `X-Forwarded-Host`, `X-Forwarded-Proto`), whatever the client sent. -/
 theorem no_forged_forwarding {e : Env} {r : Req} {path : Str} {hd : Hdrs} (h : serve e r = .proxied path hd) :
     ∀ n ∈ forwardingNames, vals n hd = [] := by
-  obtain ⟨_, _, ip, _, hhd⟩ := serve_proxied_inv h
+  obtain ⟨_, _, ip, _, _, hhd⟩ := serve_proxied_inv h
   intro n hn
   rw [hhd]
   simp only [forwardingNames, List.mem_cons, List.not_mem_nil, or_false] at hn
@@ -348,17 +384,32 @@ theorem robots_not_api (m : Str) : ¬ Shape m (trimSlash robotsPath) := by
   exact absurd this (by simp)
 
 /-- **backend_iff_api**: the backend is contacted exactly for the four documented shapes coming
-from a peer whose address has a host part. -/
+from a peer whose address has a host part (and, a refusal of `httputil.ReverseProxy` itself, not
+asking to switch to a protocol whose name is not printable ASCII). -/
 theorem backend_iff_api (e : Env) (r : Req) :
     (∃ path hd, serve e r = .proxied path hd) ↔
-      (Shape r.method (trimSlash r.path) ∧ ∃ ip, splitHost r.remote = some ip) := by
+      (Shape r.method (trimSlash r.path) ∧ (∃ ip, splitHost r.remote = some ip) ∧
+        isPrint (upgradeType r.hdrs) = true) := by
   constructor
   · rintro ⟨path, hd, h⟩
-    obtain ⟨hs, _, ip, hip, _⟩ := serve_proxied_inv h
-    exact ⟨(shouldProxy_iff _ _).mp hs, ip, hip⟩
-  · rintro ⟨hs, ip, hip⟩
+    obtain ⟨hs, _, ip, hip, hpr, _⟩ := serve_proxied_inv h
+    exact ⟨(shouldProxy_iff _ _).mp hs, ⟨ip, hip⟩, hpr⟩
+  · rintro ⟨hs, ⟨ip, hip⟩, hpr⟩
     have hs' : shouldProxyV .fixed r.method r.path = true := (shouldProxy_iff _ _).mpr hs
-    simp [serve, serveV, hs', hip]
+    simp [serve, serveV, hs', hip, upgradeType_scrubbed, hpr]
+
+/-- **api_request_outcomes**: a request with one of the four shapes is never answered with 404 or
+the robots file: it is forwarded, or refused with 500 (no usable peer address), or dropped by the
+reverse proxy with an empty answer (unprintable protocol switch); in the last two cases the backend
+is not contacted. -/
+theorem api_request_outcomes (e : Env) (r : Req) (hs : Shape r.method (trimSlash r.path)) :
+    (splitHost r.remote = none → serve e r = .err500) ∧
+    ((∃ ip, splitHost r.remote = some ip) → isPrint (upgradeType r.hdrs) = false → serve e r = .proxyErr) := by
+  have hs' : shouldProxyV .fixed r.method r.path = true := (shouldProxy_iff _ _).mpr hs
+  constructor
+  · intro hn; simp [serve, serveV, hs', hn]
+  · rintro ⟨ip, hip⟩ hpr
+    simp [serve, serveV, hs', hip, upgradeType_scrubbed, hpr]
 
 /-- **bad_peer_not_forwarded**: without a usable peer address nothing reaches the backend. -/
 theorem bad_peer_not_forwarded (e : Env) (r : Req) (h : splitHost r.remote = none) :
@@ -367,6 +418,26 @@ theorem bad_peer_not_forwarded (e : Env) (r : Req) (h : splitHost r.remote = non
   obtain ⟨_, _, ip, hip, _⟩ := serve_proxied_inv hp
   rw [h] at hip
   exact absurd hip (by simp)
+
+/-- **no_protocol_switch**: no forwarded request asks the backend to switch protocols — it carries
+neither an `Upgrade` nor a `Connection` header, whatever the client sent (`Connection: Upgrade` with
+any protocol name, which `httputil.ReverseProxy` would pass on and, on a `101` answer, turn into a
+raw byte tunnel between client and backend that bypasses the allow-list and the header rewriting). -/
+theorem no_protocol_switch {e : Env} {r : Req} {path : Str} {hd : Hdrs} (h : serve e r = .proxied path hd) :
+    vals hUpgrade hd = [] ∧ vals hConnection hd = [] ∧ upgradeType hd = [] := by
+  obtain ⟨_, _, ip, _, _, hhd⟩ := serve_proxied_inv h
+  have h1 : vals hUpgrade hd = [] := by
+    rw [hhd]; unfold proxyHeaders dropUpgradeHdrs
+    simp only [Variant.fixed, if_true]
+    exact vals_hdel_same _ _
+  have h2 : vals hConnection hd = [] := by
+    rw [hhd]; unfold proxyHeaders dropUpgradeHdrs
+    simp only [Variant.fixed, if_true]
+    exact vals_hdel_nil _ (vals_hdel_same _ _)
+  refine ⟨h1, h2, ?_⟩
+  unfold upgradeType asksUpgrade
+  rw [h2]
+  simp
 
 /-- What the backend can use to identify the client: the client-IP header and the seven forwarding
 headers. -/
@@ -432,7 +503,7 @@ inductive PeerAddr : Str → Str → Prop
 /-- **client_ip_is_peer_ip**: for both forms of a TCP peer address the forwarded client-IP header is
 exactly the peer's IP (no port, no brackets), and the request is never refused with 500. -/
 theorem client_ip_is_peer_ip {e : Env} {r : Req} {ip : Str} (hp : PeerAddr r.remote ip)
-    (hs : Shape r.method (trimSlash r.path)) :
+    (hs : Shape r.method (trimSlash r.path)) (hpr : isPrint (upgradeType r.hdrs) = true) :
     ∃ path hd, serve e r = .proxied path hd ∧ vals hXConnectingIP hd = [ip] := by
   have hgen : ∀ rem, PeerAddr rem ip → splitHost rem = some ip := by
     intro rem hp
@@ -440,7 +511,7 @@ theorem client_ip_is_peer_ip {e : Env} {r : Req} {ip : Str} (hp : PeerAddr r.rem
     | v4 _ port a b c d e f => exact splitHost_hostport a b c d e f
     | v6 _ port a b c d e => exact splitHost_bracketed a b c d e
   have hip : splitHost r.remote = some ip := hgen _ hp
-  obtain ⟨path, hd, h⟩ := (backend_iff_api e r).mpr ⟨hs, ip, hip⟩
+  obtain ⟨path, hd, h⟩ := (backend_iff_api e r).mpr ⟨hs, ⟨ip, hip⟩, hpr⟩
   obtain ⟨ip', hip', hv⟩ := client_ip_header h
   rw [hip] at hip'
   have : ip' = ip := by simpa using hip'.symm
@@ -519,8 +590,8 @@ theorem wire_segments_dot_free {m t p : Str} (ht : parseTarget ('/' :: t) = some
 /-- **C19 on the wire**: for every method, origin-form request target, peer address and header set:
 if `net/http` accepts the target and the backend is contacted, then the decoded path has one of the
 four shapes, no raw segment of the target decodes to (or contains) a dot segment, the backend path
-is normalised under the prefix, the client-IP header is the peer's address and no forwarding header
-survives. -/
+is normalised under the prefix, the client-IP header is the peer's address, no forwarding header
+survives and no protocol switch is requested from the backend. -/
 theorem wire_forwards_only_api_with_real_address {e : Env} {m t p remote : Str} {hs : Hdrs} {path : Str}
     {hd : Hdrs} (ht : parseTarget ('/' :: t) = some p)
     (h : serve e { method := m, path := p, remote := remote, hdrs := hs } = .proxied path hd) :
@@ -528,10 +599,62 @@ theorem wire_forwards_only_api_with_real_address {e : Env} {m t p remote : Str} 
     (∀ s ∈ split (rawPath t), ∃ d, unescape s = some d ∧ (∀ x ∈ split d, Seg x) ∧ d ≠ sDot ∧ d ≠ sDotDot) ∧
     (∃ rel, path = stripEnd e.base ++ rel ∧ normalize rel = rel ∧ underPrefix rel = true) ∧
     (∃ ip, splitHost remote = some ip ∧ vals hXConnectingIP hd = [ip]) ∧
-    (∀ n ∈ forwardingNames, vals n hd = []) := by
+    (∀ n ∈ forwardingNames, vals n hd = []) ∧ upgradeType hd = [] := by
   obtain ⟨h1, h2, h3, h4⟩ := forwards_only_api_with_real_address h
   have hsp : shouldProxy m p = true := (shouldProxy_iff m p).mpr h1
-  exact ⟨h1, wire_segments_dot_free ht hsp, h2, h3, h4⟩
+  exact ⟨h1, wire_segments_dot_free ht hsp, h2, h3, h4, (no_protocol_switch h).2.2⟩
+
+/-! #### every form of request target (origin form, absolute form, `*`, the authority of CONNECT) -/
+
+theorem shouldProxy_nil (m : Str) : shouldProxy m [] = false := by
+  unfold shouldProxy shouldProxyV
+  have : (splitN 5 (trimSlash [])).length = 1 := by decide
+  simp [this]
+
+theorem shouldProxy_star (m : Str) : shouldProxy m ['*'] = false := by
+  unfold shouldProxy shouldProxyV
+  have : (splitN 5 (trimSlash ['*'])).length = 1 := by decide
+  simp [this]
+
+/-- an accepted request had a path-and-query part `/q` on the wire — `*`, opaque URLs and absolute
+URLs without a path are never accepted — and its path is `parseTarget` of that part. -/
+theorem accepted_target_origin {m t p : Str} (ht : parseAnyTarget m t = .path p) (hs : shouldProxy m p = true) :
+    ∃ q, classify m t = .origin q ∧ parseTarget ('/' :: q) = some p := by
+  unfold parseAnyTarget at ht
+  cases hc : classify m t with
+  | refused => rw [hc] at ht; simp at ht
+  | unmodelled => rw [hc] at ht; simp at ht
+  | noPath star =>
+    rw [hc] at ht
+    cases star
+    · simp at ht; subst ht; rw [shouldProxy_nil] at hs; exact absurd hs (by simp)
+    · simp at ht; subst ht; rw [shouldProxy_star] at hs; exact absurd hs (by simp)
+  | origin q =>
+    rw [hc] at ht
+    simp only at ht
+    cases hp : parseTarget ('/' :: q) with
+    | none => rw [hp] at ht; simp at ht
+    | some p' =>
+      rw [hp] at ht
+      simp only [Parsed.path.injEq] at ht
+      exact ⟨q, rfl, by rw [← ht, hp]⟩
+
+/-- **C19 on the wire, every target form**: like `wire_forwards_only_api_with_real_address`, but for
+every request target `net/http` accepts — origin form, absolute form `scheme://host[:port]/…`
+(whatever scheme and host the client names), `*`, opaque URLs, the authority of CONNECT: if the
+backend is contacted, the target had a path-and-query part `/q`, and that part satisfies all clauses. -/
+theorem wire_any_form_forwards_only_api_with_real_address {e : Env} {m t p remote : Str} {hs : Hdrs}
+    {path : Str} {hd : Hdrs} (ht : parseAnyTarget m t = .path p)
+    (h : serve e { method := m, path := p, remote := remote, hdrs := hs } = .proxied path hd) :
+    ∃ q, classify m t = .origin q ∧
+      Shape m (trimSlash p) ∧
+      (∀ s ∈ split (rawPath q), ∃ d, unescape s = some d ∧ (∀ x ∈ split d, Seg x) ∧ d ≠ sDot ∧ d ≠ sDotDot) ∧
+      (∃ rel, path = stripEnd e.base ++ rel ∧ normalize rel = rel ∧ underPrefix rel = true) ∧
+      (∃ ip, splitHost remote = some ip ∧ vals hXConnectingIP hd = [ip]) ∧
+      (∀ n ∈ forwardingNames, vals n hd = []) ∧ upgradeType hd = [] := by
+  have hsp : shouldProxy m p = true := (serve_proxied_inv h).1
+  obtain ⟨q, hc, hq⟩ := accepted_target_origin ht hsp
+  exact ⟨q, hc, wire_forwards_only_api_with_real_address hq h⟩
 
 /-! ### the pinned tree violated the property (counter-examples, replayed by the harness) -/
 
@@ -573,6 +696,34 @@ theorem pinned_client_ip_stripped_counterexample :
   | notFound => rw [hr] at hw; simp [connIPOf] at hw
   | robots => rw [hr] at hw; simp [connIPOf] at hw
   | err500 => rw [hr] at hw; simp [connIPOf] at hw
+  | proxyErr => rw [hr] at hw; simp [connIPOf] at hw
+
+/-- `GET /linkip/a/b` from 1.2.3.4 with `Connection: Upgrade` and `Upgrade: h2c`. -/
+def cxUpgradeReq : Req :=
+  { cxReq with hdrs := [(hConnection, hUpgrade), (hUpgrade, ['h', '2', 'c'])] }
+
+def upgradeOf : Resp → Option Str
+  | .proxied _ hd => some (upgradeType hd)
+  | _ => none
+
+/-- Before the third `fix:` commit the proxy passed a protocol-switch request on to the backend
+(`Connection: Upgrade`, `Upgrade: h2c` reached it).  If the backend answers `101`,
+`httputil.ReverseProxy` joins client and backend with a raw byte tunnel, and what the client sends
+through it is neither checked against the four shapes nor given the peer's address (replayed by the
+harness with a backend that accepts the switch). -/
+theorem upgrade_forwarded_counterexample :
+    ¬ (∀ e r path hd, serveV .upgradeForwarding e r = .proxied path hd → upgradeType hd = []) := by
+  intro h
+  have hw : upgradeOf (serveV .upgradeForwarding cxEnv cxUpgradeReq) = some ['h', '2', 'c'] := by decide
+  cases hr : serveV .upgradeForwarding cxEnv cxUpgradeReq with
+  | proxied path hd =>
+    have := h cxEnv cxUpgradeReq path hd hr
+    rw [hr] at hw
+    simp [upgradeOf, this] at hw
+  | notFound => rw [hr] at hw; simp [upgradeOf] at hw
+  | robots => rw [hr] at hw; simp [upgradeOf] at hw
+  | err500 => rw [hr] at hw; simp [upgradeOf] at hw
+  | proxyErr => rw [hr] at hw; simp [upgradeOf] at hw
 
 /-! ### requests in flight together (schedules of `Rewrite` and `send` events) -/
 
@@ -654,11 +805,11 @@ theorem interleaved_forwards_only_api_with_real_address (e : Env) (reqs : List R
         Shape io.2.method (trimSlash r.path) ∧
         (∃ rel, io.2.path = stripEnd e.base ++ rel ∧ normalize rel = rel ∧ underPrefix rel = true) ∧
         (∃ ip, splitHost r.remote = some ip ∧ vals hXConnectingIP io.2.hdrs = [ip]) ∧
-        (∀ n ∈ forwardingNames, vals n io.2.hdrs = []) := by
+        (∀ n ∈ forwardingNames, vals n io.2.hdrs = []) ∧ upgradeType io.2.hdrs = [] := by
   intro io hio
   obtain ⟨r, hr, hm, hs⟩ := flights_independent e reqs evs io hio
   obtain ⟨h1, h2, h3, h4⟩ := forwards_only_api_with_real_address hs
-  exact ⟨r, hr, hm, hm ▸ h1, h2, h3, h4⟩
+  exact ⟨r, hr, hm, hm ▸ h1, h2, h3, h4, (no_protocol_switch hs).2.2⟩
 
 /-- Two clients: `GET /linkip/a/b/status` from 1.2.3.4 and `POST /ddns/c/d/e` from 6.7.8.9. -/
 def flReqs : List Req :=
@@ -705,6 +856,15 @@ example : shouldProxy mPOST ['/', 'l', 'i', 'n', 'k', 'i', 'p', '/', 'a', '/', '
 example : shouldProxy mGET cxPath = false := by decide
 example : serve cxEnv { cxReq with path := cxPath } = .notFound := by decide
 example : serve cxEnv { cxReq with path := robotsPath } = .robots := by decide
+-- the fixed tree forwards the same request without any protocol switch
+example : upgradeOf (serve cxEnv cxUpgradeReq) = some [] := by decide
+example : (match serve cxEnv cxUpgradeReq with
+    | .proxied _ hd => (vals hUpgrade hd, vals hConnection hd, vals hXConnectingIP hd) | _ => ([], [], [])) =
+    ([], [], [['1', '.', '2', '.', '3', '.', '4']]) := by decide
+-- an unprintable protocol name: the reverse proxy drops the request itself
+example : serve cxEnv { cxReq with hdrs := [(hConnection, ['u', 'p', 'G', 'R', 'A', 'D', 'E']), (hUpgrade, ['a', '\t', 'b'])] }
+    = .proxyErr := by decide
+example : isPrint (upgradeType cxReq.hdrs) = true := by decide
 -- `Shape` and `Seg` are inhabited with a non-trivial instance.
 example : Shape mPOST (path4 sDdns ['a'] ['b'] ['c']) :=
   Shape.postDdns _ _ _ (by simp [Seg, sDot, sDotDot]) (by simp [Seg, sDot, sDotDot]) (by simp [Seg, sDot, sDotDot])
@@ -741,6 +901,19 @@ example : shouldProxy mGET "/linkip/a.b/c".toList = true := by decide
 example : parseTarget "/linkip/%2e%2E/x".toList = some "/linkip/../x".toList := by decide
 example : shouldProxy mGET "/linkip/../x".toList = false := by decide
 example : parseTarget "/linkip/%2/x".toList = none := by decide
+example : parseAnyTarget mGET "http://evil.example:80/linkip/%2e%2E/x?y".toList = .path "/linkip/../x".toList := by decide
+example : parseAnyTarget mGET "HTTP://h/linkip/a/b".toList = .path "/linkip/a/b".toList := by decide
+example : classify mGET "x-1://h/linkip/a/b?q=/..".toList = .origin "linkip/a/b".toList := by decide
+example : parseAnyTarget mGET "http:/linkip/a/b".toList = .path "/linkip/a/b".toList := by decide
+example : parseAnyTarget mGET "http:linkip/a/b".toList = .path [] := by decide
+example : parseAnyTarget mGET "//evil/linkip/a/b".toList = .path "//evil/linkip/a/b".toList := by decide
+example : parseAnyTarget mGET "linkip/a/b".toList = .refused := by decide
+example : parseAnyTarget mGET ":x".toList = .refused := by decide
+example : parseAnyTarget mGET "*".toList = .path ['*'] := by decide
+example : parseAnyTarget mGET [] = .refused := by decide
+example : parseAnyTarget mCONNECT "host:443".toList = .path [] := by decide
+example : parseAnyTarget mCONNECT [] = .path [] := by decide
+example : parseAnyTarget mGET "http://u:p@h/linkip/a/b".toList = .unmodelled := by decide
 example : parseTarget "/linkip/a b/x".toList = none := by decide
 -- the identity headers of the witness request with forged headers are the peer address and nothing else.
 def idOf : Resp → Option (List (List Str))
@@ -771,6 +944,15 @@ end Agd.LinkIP
 #print axioms Agd.LinkIP.forwards_only_api_with_real_address
 #print axioms Agd.LinkIP.pinned_path_escapes_counterexample
 #print axioms Agd.LinkIP.pinned_client_ip_stripped_counterexample
+#print axioms Agd.LinkIP.upgrade_forwarded_counterexample
+#print axioms Agd.LinkIP.no_protocol_switch
+#print axioms Agd.LinkIP.api_request_outcomes
+#print axioms Agd.LinkIP.upgradeType_congr
+#print axioms Agd.LinkIP.shouldProxy_nil
+#print axioms Agd.LinkIP.shouldProxy_star
+#print axioms Agd.LinkIP.accepted_target_origin
+#print axioms Agd.LinkIP.wire_any_form_forwards_only_api_with_real_address
+#print axioms Agd.LinkIP.upgradeType_scrubbed
 #print axioms Agd.LinkIP.shouldProxy_parts
 #print axioms Agd.LinkIP.parts_seg
 #print axioms Agd.LinkIP.seg_not_dot
